@@ -279,6 +279,17 @@ def real_ck(line):
             c2 = reach(a, b)
             c2.reset()
             return ','.join(hits) + f' reset={c2.value()[0]}:{c2.value()[1]}'
+        if p[0] == 'ckgen':
+            c = Checksum()
+            for x in lcg_payload(int(p[1]), int(p[2]), int(p[3])):
+                c.add(x)
+            va, vb = c.value()
+            again = Checksum()
+            c.reset()
+            for x in b'\x01\x02\x03':
+                c.add(x)
+                again.add(x)
+            return f'{va},{vb} {"true" if c.value() == again.value() else "false"}'
         if p[0] == 'ckseq':
             c = Checksum()
             c.add(0x55)
@@ -294,6 +305,9 @@ def real_ck(line):
 
 def oracles_ck(line, real_out):
     p = line.split('|')
+    if p[0] == 'ckgen':
+        return [], [{'line': 'ckgen|' + '|'.join(p[1:]), 'expect': real_out, 'prop': 'C15',
+                     'what': 'CK_A / CK_B are the sums mod 256 for every byte sequence, however long; after reset() the object is as new'}]
     if p[0] == 'ckseq':
         return [], [{'line': 'ck|' + p[1], 'expect': real_out.split(' ')[0], 'prop': 'C15',
                      'what': 'CK_A = sum of the bytes mod 256, CK_B = sum of the successive CK_A values mod 256, from (0,0)'}]
@@ -320,6 +334,11 @@ def gen_ck(rng, n, profile):
             yield f'ck|{a}|{b}'
     for _ in range(16 if profile != 'all-states' else 64):
         yield f'ckm|{rng.randrange(256)}|{rng.randrange(256)}'
+    # long runs: the running sums must stay reduced however many bytes go into one object
+    longs = [5802, 5803, 5804, 6000, 8200, 20000, 65535, 65536, 100000] + ([300000, 1000000, 3000000] if profile == 'all-states' else [])
+    for ln in longs:
+        for mode in (0, 1, 2):
+            yield f'ckgen|{ln}|{rng.randrange(1 << 30)}|{mode}'
     for _ in range(n):
         ln = rng.choice([0, 1, 2, 3, 255, 256, 257, 1000, rng.randrange(5000)])
         yield 'ckseq|' + bytes(rng.choice([0xff, 0xb5, 0, rng.randrange(256)]) for _ in range(ln)).hex()
@@ -693,7 +712,8 @@ def oracles_key(line, real_out):
 
 
 def published_keys():
-    return sorted(v for k, v in vars(UbxKeyId).items() if isinstance(v, int) and not k.startswith('_'))
+    ks = {v for k, v in vars(UbxKeyId).items() if isinstance(v, int) and not isinstance(v, bool) and k.startswith('CFG_')}
+    return sorted(ks | {k for k in getattr(UbxKeyId, 'KEY_INFO', {}) if isinstance(k, int)})
 
 
 def gen_key(rng, n, profile):
@@ -714,6 +734,16 @@ def gen_key(rng, n, profile):
         for v in (0, 1, (1 << (bits - 1)) - 1 if bits > 1 else 1, (1 << bits) - 1, -1 if bits > 1 else 0):
             data = struct.pack('<I', key) + (v % (1 << max(bits, 8))).to_bytes(WIDTH[bits], 'little')
             yield 'keyunpack|' + data.hex()
+    # neighbours of every published key: the same group/item under every size code, the items and groups next to it
+    for key in keys:
+        for code in (1, 2, 3, 4, 5):
+            for k2 in {(key & 0x0FFFFFFF) | code << 28, ((key & 0x0FFFF000) | ((key + 1) & 0xFFF)) | code << 28,
+                       ((key & 0x0F00FFFF) | ((key + 0x10000) & 0xFF0000)) | code << 28}:
+                bits = {1: 1, 2: 8, 3: 16, 4: 32, 5: 64}[code]
+                top = 1 if bits == 1 else (1 << bits) - 1
+                yield f'fromkey|{k2}|{top}'
+                yield 'keyunpack|' + (struct.pack('<I', k2) + top.to_bytes(WIDTH[bits], 'little')).hex()
+                yield f'keypack|{(k2 >> 16) & 0xff}|{k2 & 0xfff}|{bits}|0|{top}'
     for bits in (1, 8, 16, 32, 64):
         for sg in (0, 1):
             for g in (0, 1, 0x7f, 0xff):
